@@ -21,6 +21,9 @@ ERRNO = {
 }
 
 CWD = "/sim"
+# real top-level directories that must stay reachable (the interpreter, the repository, /dev/null ...)
+REAL_TOP_LEVEL = {"/" + d for d in ("bin", "boot", "dev", "etc", "home", "lib", "lib32", "lib64", "libx32", "media", "mnt", "opt",
+                                    "proc", "repo", "root", "run", "sbin", "srv", "sys", "tmp", "usr", "var", "venv", "verif", "w")}
 FD_BASE = 7000
 
 
@@ -180,7 +183,7 @@ class SimFS:
     def __init__(self, files: dict, dirs, ro=(), unreadable=(), roles=None, plan=None, knobs=None):
         self.files = {self.norm(p): bytearray(v) for p, v in files.items()}
         self.dirs = {self.norm(d) for d in dirs} | {CWD, "/"}
-        self.ro = {self.norm(p) for p in ro}
+        self.ro = {self.norm(p) for p in ro} | {"/"}
         self.unreadable = {self.norm(p) for p in unreadable}
         self.roles = {self.norm(p): r for p, r in (roles or {}).items()}
         self.plan = {int(f["at"]): f for f in (plan or [])}
@@ -232,7 +235,12 @@ class SimFS:
         if path in ("", b""):
             return True
         try:
-            return self.norm(path).startswith(CWD + "/") or self.norm(path) == CWD
+            n = self.norm(path)
+            # the root directory and names directly under it belong to the simulated tree too (a
+            # read-only root): the parent of the working directory must never be the real "/"
+            if n == "/" or (posixpath.dirname(n) == "/" and n not in REAL_TOP_LEVEL):
+                return True
+            return n.startswith(CWD + "/") or n == CWD
         except TypeError:
             return False
 
@@ -288,6 +296,33 @@ class SimFS:
                 self.passthrough.append(repr(file))
                 raise PermissionError(_errno.EACCES, "write to a real path blocked by the simulator", os.fspath(file) if not isinstance(file, int) else None)
             return self._real_open(file, mode, buffering, encoding, errors, newline, closefd, opener)
+        if opener is not None and not isinstance(file, int):
+            # io.open(file, mode, opener=...) (tempfile.NamedTemporaryFile does this): the opener
+            # returns the descriptor, like the real io.open asks it to
+            import os as _os
+
+            m = set(mode)
+            if "r" in m and "+" not in m:
+                flags = _os.O_RDONLY
+            elif "+" in m:
+                flags = _os.O_RDWR | (_os.O_CREAT if m & set("wax") else 0)
+            else:
+                flags = _os.O_WRONLY | _os.O_CREAT
+            if "w" in m:
+                flags |= _os.O_TRUNC
+            if "a" in m:
+                flags |= _os.O_APPEND
+            if "x" in m:
+                flags |= _os.O_EXCL
+            fd = opener(file, flags | getattr(_os, "O_CLOEXEC", 0))
+            if fd in self.fds:
+                obj = self._open_fd(fd, mode, buffering, encoding, errors, newline, True)
+                try:
+                    obj.name = file
+                except (AttributeError, TypeError):
+                    pass
+                return obj
+            return self._real_open(fd, mode, buffering, encoding, errors, newline, closefd)
         if not isinstance(file, int) and os.fspath(file) in ("", b""):
             self.seq += 1
             self.record("open", "OTHER", "", mode, "!ENOENT")
@@ -705,7 +740,16 @@ class Patches:
             return f
 
         self._set(_os, "isatty", wrapfd(_os.isatty, lambda fd: fs.fds[fd].isatty()))
-        self._set(_os, "open", wrap1(_os.open, fs.os_open))
+        def guarded_os_open(path, flags, *a, **kw):
+            if fs.is_sim(path):
+                return fs.os_open(path, flags, *a, **kw)
+            if flags & (_os.O_WRONLY | _os.O_RDWR | _os.O_CREAT | _os.O_TRUNC | _os.O_APPEND):
+                fs.passthrough.append(repr(path))
+                raise PermissionError(_errno.EACCES, "write to a real path blocked by the simulator", _os.fspath(path))
+            return real_os_open(path, flags, *a, **kw)
+
+        real_os_open = _os.open
+        self._set(_os, "open", guarded_os_open)
         self._set(_os, "close", wrapfd(_os.close, fs.os_close))
         self._set(_os, "write", wrapfd(_os.write, fs.os_write))
         self._set(_os, "read", wrapfd(_os.read, fs.os_read))
